@@ -101,3 +101,302 @@ Proof.
   pose proof (nest_wg_entries l H) as N. apply Nat.ltb_ge in N. rewrite N.
   rewrite (flat_wg_entries l H). reflexivity.
 Qed.
+
+(* ================= the general clause for Device.extend: any mixture of supported objects ================= *)
+
+(* an entry the device accepts: an object of one of the five types, or a group of plain waveguides *)
+Definition ok_entry (it : item) : bool :=
+  wg_entry it || match it with Obj k _ => five k | Grp _ => false end.
+
+Definition ekind (it : item) : kind :=
+  match it with Obj k _ => k | Grp (Obj k _ :: _) => k | Grp _ => KOther 0 end.
+
+Lemma ok_entry_key : forall it, ok_entry it = true -> key_of it = KeyOf (ekind it) /\ five (ekind it) = true.
+Proof.
+  intros [k i|l] H; unfold ok_entry in H; cbn in *.
+  - split; [reflexivity|]. destruct k; cbn in *; try discriminate; reflexivity.
+  - rewrite orb_false_r in H. destruct l as [|[k i|l'] r]; try discriminate. destruct k; try discriminate. split; reflexivity.
+Qed.
+
+Lemma kind_eqb_eq : forall a b, kind_eqb a b = true <-> a = b.
+Proof.
+  intros a b; split.
+  - destruct a, b; cbn; try discriminate; try reflexivity; intros H; apply N.eqb_eq in H; now subst.
+  - intros ->. destruct b; cbn; try reflexivity; apply N.eqb_refl.
+Qed.
+
+Lemma kind_eqb_sym : forall a b, kind_eqb a b = kind_eqb b a.
+Proof.
+  intros a b. destruct (kind_eqb a b) eqn:E.
+  - apply kind_eqb_eq in E. subst. symmetry. now apply kind_eqb_eq.
+  - destruct (kind_eqb b a) eqn:E2; [|reflexivity]. apply kind_eqb_eq in E2. subst.
+    assert (kind_eqb a a = true) by now apply kind_eqb_eq. congruence.
+Qed.
+
+(* the entries of type k, in order *)
+Definition sel (k : kind) (l : list item) : list item := filter (fun it => kind_eqb (ekind it) k) l.
+
+(* the collection registered for a type *)
+Definition fld (k : kind) (d : dev) : list item :=
+  match k with KWg => d_wg d | KNwg => d_nwg d | KTc => d_tc d | KUtc => d_utc d | KMk => d_mk d | _ => [] end.
+
+Lemma fld_add_to : forall k w d l, five k = true -> five w = true ->
+  fld k (add_to w d l) = fld k d ++ (if kind_eqb w k then l else []).
+Proof. intros k w d l Hk Hw. destruct k, w; try discriminate; cbn; rewrite ?app_nil_r; reflexivity. Qed.
+
+(* first bucket with a key *)
+Fixpoint lookupb (k : kind) (bs : list (key * list item)) : list item :=
+  match bs with
+  | [] => []
+  | b :: r => if key_eqb (fst b) (KeyOf k) then snd b else lookupb k r
+  end.
+
+Lemma key_of_kind : forall k' w, key_eqb (KeyOf w) k' = true -> k' = KeyOf w.
+Proof. intros [w'| |] w H; try discriminate. cbn in H. apply kind_eqb_eq in H. now subst. Qed.
+
+Lemma lookupb_add : forall k w it bs,
+  lookupb k (bucket_add (KeyOf w) it bs) = lookupb k bs ++ (if kind_eqb w k then [it] else []).
+Proof.
+  intros k w it. induction bs as [|[k' e] r IH]; cbn [bucket_add lookupb fst snd].
+  - change (key_eqb (KeyOf w) (KeyOf k)) with (kind_eqb w k). destruct (kind_eqb w k); reflexivity.
+  - destruct (key_eqb (KeyOf w) k') eqn:E; cbn [lookupb fst snd].
+    + apply key_of_kind in E. subst k'. change (key_eqb (KeyOf w) (KeyOf k)) with (kind_eqb w k).
+      destruct (kind_eqb w k); [reflexivity | now rewrite app_nil_r].
+    + destruct (key_eqb k' (KeyOf k)) eqn:E2; [|exact IH].
+      destruct k' as [w'| |]; try discriminate. cbn in E, E2. apply kind_eqb_eq in E2. subst w'.
+      rewrite E. now rewrite app_nil_r.
+Qed.
+
+(* invariants of the bucket list *)
+Definition okb1 (b : key * list item) : Prop :=
+  exists w, fst b = KeyOf w /\ five w = true /\ forallb (fun it => ok_entry it && kind_eqb (ekind it) w) (snd b) = true.
+Fixpoint nodupk (bs : list (key * list item)) : Prop :=
+  match bs with
+  | [] => True
+  | b :: r => (forall b', In b' r -> key_eqb (fst b) (fst b') = false) /\ nodupk r
+  end.
+
+Lemma bucket_add_keys : forall w it bs b', In b' (bucket_add (KeyOf w) it bs) ->
+  (exists b, In b bs /\ fst b = fst b') \/ fst b' = KeyOf w.
+Proof.
+  intros w it. induction bs as [|[k' e] r IH]; intros b' H; cbn [bucket_add] in H.
+  - destruct H as [<-|[]]. now right.
+  - destruct (key_eqb (KeyOf w) k') eqn:E.
+    + destruct H as [<-|H]; [left; exists (k', e); split; [now left | reflexivity]|].
+      left. exists b'. split; [now right | reflexivity].
+    + destruct H as [<-|H]; [left; exists (k', e); split; [now left | reflexivity]|].
+      destruct (IH b' H) as [[b [Hb Eb]]|Hw]; [left; exists b; split; [now right | exact Eb] | now right].
+Qed.
+
+Lemma bucket_add_inv : forall it bs, five (ekind it) = true -> ok_entry it = true ->
+  Forall okb1 bs -> nodupk bs ->
+  Forall okb1 (bucket_add (KeyOf (ekind it)) it bs) /\ nodupk (bucket_add (KeyOf (ekind it)) it bs).
+Proof.
+  intros it bs Hw Hit. set (w := ekind it) in *.
+  assert (Hkk : kind_eqb (ekind it) w = true) by now apply kind_eqb_eq.
+  induction bs as [|[k' e] r IH]; intros HF HN; cbn [bucket_add].
+  - split; [|split; [intros b' []|exact I]]. constructor; [|constructor]. exists w. cbn [fst snd forallb].
+    split; [reflexivity|]. split; [exact Hw|]. now rewrite Hit, Hkk.
+  - apply Forall_cons_iff in HF as [H1 H2]. destruct HN as [N1 N2]. destruct (key_eqb (KeyOf w) k') eqn:E.
+    + apply key_of_kind in E. split.
+      * constructor; [|exact H2]. destruct H1 as [w' [E1 [F1 A1]]]. cbn [fst snd] in *. rewrite E in E1. injection E1 as E1.
+        exists w. cbn [fst snd]. split; [exact E|]. split; [exact Hw|]. rewrite forallb_app. rewrite <- E1 in A1. rewrite A1. cbn [forallb].
+        now rewrite Hit, Hkk.
+      * split; [exact N1 | exact N2].
+    + destruct (IH H2 N2) as [F' N']. split; [constructor; assumption|]. split; [|exact N'].
+      intros b' Hb'. cbn [fst]. destruct (bucket_add_keys w it r b' Hb') as [[b [Hb Eb]]|Eb].
+      * rewrite <- Eb. apply (N1 b Hb).
+      * rewrite Eb. destruct H1 as [w' [E1 _]]. cbn [fst] in E1. rewrite E1 in *. cbn in *. rewrite kind_eqb_sym. exact E.
+Qed.
+
+Definition fold_b (l : list item) (bs : list (key * list item)) : list (key * list item) :=
+  fold_left (fun bs it => bucket_add (key_of it) it bs) l bs.
+
+Lemma buckets_fold : forall l bs, forallb ok_entry l = true -> buckets l bs = Some (fold_b l bs).
+Proof.
+  induction l as [|it r IH]; intros bs H; [reflexivity|]. cbn [forallb] in H. apply andb_true_iff in H as [H1 H2].
+  cbn [buckets fold_b fold_left]. destruct (ok_entry_key it H1) as [E _]. rewrite E. now apply IH.
+Qed.
+
+Lemma fold_b_inv : forall l bs, forallb ok_entry l = true -> Forall okb1 bs -> nodupk bs ->
+  Forall okb1 (fold_b l bs) /\ nodupk (fold_b l bs) /\ forall k, lookupb k (fold_b l bs) = lookupb k bs ++ sel k l.
+Proof.
+  induction l as [|it r IH]; intros bs H HF HN.
+  - cbn. split; [exact HF|]. split; [exact HN|]. intros; now rewrite app_nil_r.
+  - cbn [forallb] in H. apply andb_true_iff in H as [H1 H2]. cbn [fold_b fold_left].
+    destruct (ok_entry_key it H1) as [E F]. rewrite E.
+    destruct (bucket_add_inv it bs F H1 HF HN) as [HF' HN'].
+    destruct (IH _ H2 HF' HN') as [A [B C]]. split; [exact A|]. split; [exact B|].
+    intros k. unfold fold_b in C. rewrite C, lookupb_add. unfold sel. cbn [filter].
+    destruct (kind_eqb (ekind it) k); [now rewrite <- app_assoc | now rewrite app_nil_r].
+Qed.
+
+(* ---- each writer accepts its bucket ---- *)
+Definition obj_of (w : kind) (it : item) : bool := match it with Obj k _ => kind_eqb k w | Grp _ => false end.
+
+Lemma objs_flat : forall w e, forallb (obj_of w) e = true -> flat e = e.
+Proof.
+  induction e as [|it r IH]; intros H; [reflexivity|]. cbn [forallb] in H. apply andb_true_iff in H as [H1 H2].
+  destruct it as [k i|g]; [|discriminate]. cbn [flat flat_i app]. now rewrite (IH H2).
+Qed.
+
+Lemma objs_append_each : forall w e acc, forallb (obj_of w) e = true -> append_each w acc e = (acc ++ e, None).
+Proof.
+  induction e as [|it r IH]; intros acc H; cbn [append_each]; [now rewrite app_nil_r|].
+  cbn [forallb] in H. apply andb_true_iff in H as [H1 H2]. destruct it as [k i|g]; [|discriminate]. cbn [obj_of] in H1.
+  cbn [leaf_kind]. unfold isinst. rewrite H1. cbn [orb]. rewrite (IH _ H2). now rewrite <- app_assoc.
+Qed.
+
+Lemma objs_all_inst : forall w e, forallb (obj_of w) e = true -> all_inst w e = true.
+Proof.
+  induction e as [|it r IH]; intros H; [reflexivity|]. cbn [forallb] in H. apply andb_true_iff in H as [H1 H2].
+  destruct it as [k i|g]; [|discriminate]. cbn [obj_of] in H1. unfold all_inst in *. cbn [forallb leaf_kind]. unfold isinst.
+  rewrite H1. cbn [orb andb]. now apply IH.
+Qed.
+
+Lemma bucket_objs : forall w e, w <> KWg ->
+  forallb (fun it => ok_entry it && kind_eqb (ekind it) w) e = true -> forallb (obj_of w) e = true.
+Proof.
+  intros w e Hw. induction e as [|it r IH]; intros H; [reflexivity|]. cbn [forallb] in *.
+  apply andb_true_iff in H as [H1 H2]. rewrite (IH H2), andb_true_r. apply andb_true_iff in H1 as [A B].
+  destruct it as [k i|g]; cbn [ekind obj_of] in *; [exact B|].
+  unfold ok_entry in A. rewrite orb_false_r in A. cbn in A.
+  destruct g as [|[k i|g'] r']; try discriminate. destruct k; try discriminate. apply kind_eqb_eq in B. congruence.
+Qed.
+
+Lemma bucket_wg : forall e, forallb (fun it => ok_entry it && kind_eqb (ekind it) KWg) e = true -> forallb wg_entry e = true.
+Proof.
+  induction e as [|it r IH]; intros H; [reflexivity|]. cbn [forallb] in *. apply andb_true_iff in H as [H1 H2].
+  rewrite (IH H2), andb_true_r. apply andb_true_iff in H1 as [A B]. unfold ok_entry in A.
+  apply orb_true_iff in A as [A|A]; [exact A|]. destruct it as [k i|g]; [|discriminate]. cbn in B. apply kind_eqb_eq in B. now subst k.
+Qed.
+
+Lemma writer_extend_ok : forall w d e, five w = true ->
+  forallb (fun it => ok_entry it && kind_eqb (ekind it) w) e = true -> writer_extend w d e = (add_to w d e, None).
+Proof.
+  intros w d e Hw He. destruct w; try discriminate; cbn [writer_extend add_to].
+  - pose proof (bucket_wg e He) as G. pose proof (nest_wg_entries e G) as N. apply Nat.ltb_ge in N. rewrite N.
+    now rewrite (flat_wg_entries e G).
+  - assert (O : forallb (obj_of KNwg) e = true) by (apply bucket_objs; [discriminate | exact He]).
+    rewrite (objs_flat _ _ O), (objs_all_inst _ _ O). reflexivity.
+  - assert (O : forallb (obj_of KTc) e = true) by (apply bucket_objs; [discriminate | exact He]).
+    rewrite (objs_flat _ _ O), (objs_append_each _ _ _ O). reflexivity.
+  - assert (O : forallb (obj_of KUtc) e = true) by (apply bucket_objs; [discriminate | exact He]).
+    rewrite (objs_flat _ _ O), (objs_append_each _ _ _ O). reflexivity.
+  - assert (O : forallb (obj_of KMk) e = true) by (apply bucket_objs; [discriminate | exact He]).
+    rewrite (objs_flat _ _ O), (objs_append_each _ _ _ O). reflexivity.
+Qed.
+
+Lemma lookupb_absent : forall k (b : key * list item) r, fst b = KeyOf k -> (forall b', In b' r -> key_eqb (fst b) (fst b') = false) -> lookupb k r = [].
+Proof.
+  intros k b r Hb. induction r as [|b' r' IH]; intros H; [reflexivity|]. cbn [lookupb].
+  pose proof (H b' (or_introl eq_refl)) as E. rewrite Hb in E.
+  destruct (key_eqb (fst b') (KeyOf k)) eqn:E2.
+  - destruct (fst b') as [w'| |]; try discriminate. cbn in E, E2. rewrite kind_eqb_sym in E. congruence.
+  - apply IH. intros b'' Hb''. apply H. now right.
+Qed.
+
+Lemma route_ok : forall bs d, Forall okb1 bs -> nodupk bs ->
+  exists d', route d bs = (d', None) /\ forall k, five k = true -> fld k d' = fld k d ++ lookupb k bs.
+Proof.
+  induction bs as [|[k' e] r IH]; intros d HF HN.
+  - exists d. split; [reflexivity|]. intros; cbn; now rewrite app_nil_r.
+  - inversion HF as [|? ? H1 H2]; subst. destruct HN as [N1 N2]. destruct H1 as [w [E1 [F1 A1]]]. cbn [fst snd] in *. subst k'.
+    cbn [route]. rewrite (writer_extend_ok w d e F1 A1).
+    destruct (IH (add_to w d e) H2 N2) as [d' [R Hd]]. exists d'. split; [exact R|].
+    intros k Hk. rewrite (Hd k Hk), (fld_add_to k w d e Hk F1). cbn [lookupb fst snd].
+    change (key_eqb (KeyOf w) (KeyOf k)) with (kind_eqb w k). destruct (kind_eqb w k) eqn:E.
+    + apply kind_eqb_eq in E. subst k. rewrite (lookupb_absent w (KeyOf w, e) r eq_refl N1). now rewrite app_nil_r.
+    + now rewrite app_nil_r.
+Qed.
+
+(* Device.extend with any mixture of supported objects and groups of waveguides: no exception, and every collection
+   receives exactly the entries of its own type, in the order given, groups intact *)
+Theorem extend_general : forall d l, forallb ok_entry l = true ->
+  exists d', dev_extend d (Grp l) = (d', None) /\ forall k, five k = true -> fld k d' = fld k d ++ sel k l.
+Proof.
+  intros d l H. unfold dev_extend, parse_objects. rewrite (buckets_fold l [] H).
+  destruct (fold_b_inv l [] H (Forall_nil _) I) as [A [B C]].
+  destruct (route_ok (fold_b l []) d A B) as [d' [R Hd]]. exists d'. split; [exact R|].
+  intros k Hk. rewrite (Hd k Hk), (C k). reflexivity.
+Qed.
+
+(* ... and so does any sequence of such calls *)
+Theorem extend_history : forall ls d, Forall (fun l => forallb ok_entry l = true) ls ->
+  let r := run_hist d (map (fun l => DExtend (Grp l)) ls) in
+  Forall (fun x => x = None) (snd r) /\ forall k, five k = true -> fld k (fst r) = fld k d ++ flat_map (sel k) ls.
+Proof.
+  induction ls as [|l r IH]; intros d HF; cbv zeta.
+  - cbn. split; [constructor|]. intros; now rewrite app_nil_r.
+  - inversion HF as [|? ? H1 H2]; subst. cbn [map run_hist step].
+    destruct (extend_general d l H1) as [d1 [E Hd]]. rewrite E.
+    specialize (IH d1 H2). cbv zeta in IH. destruct (run_hist d1 (map (fun l0 => DExtend (Grp l0)) r)) as [d2 xs].
+    cbn [fst snd] in *. destruct IH as [X Y]. split; [constructor; [reflexivity | exact X]|].
+    intros k Hk. rewrite (Y k Hk), (Hd k Hk). cbn [flat_map]. now rewrite app_assoc.
+Qed.
+
+(* every accepted entry goes to exactly one collection: its own *)
+Lemma sel_partition : forall l it, In it l -> ok_entry it = true -> In it (sel (ekind it) l) /\ forall k, k <> ekind it -> ~ In it (sel k l).
+Proof.
+  intros l it Hin Hok. split.
+  - unfold sel. apply filter_In. split; [exact Hin | now apply kind_eqb_eq].
+  - intros k Hk Hc. unfold sel in Hc. apply filter_In in Hc as [_ E]. apply kind_eqb_eq in E. congruence.
+Qed.
+
+(* ---- an object of any other type anywhere in the list makes the call raise ---- *)
+Lemma bucket_add_has_key : forall k it bs, exists b, In b (bucket_add k it bs) /\ fst b = k.
+Proof.
+  intros k it. induction bs as [|[k' e] r IH]; cbn [bucket_add].
+  - eexists. split; [now left | reflexivity].
+  - destruct (key_eqb k k') eqn:E.
+    + exists (k', e ++ [it]). split; [now left|]. cbn [fst].
+      destruct k as [a| |], k' as [b| |]; cbn in E; try discriminate; try reflexivity. apply kind_eqb_eq in E. now subst.
+    + destruct IH as [b [Hb Eb]]. exists b. split; [now right | exact Eb].
+Qed.
+
+Lemma bucket_add_keeps_key : forall k it bs b, In b bs -> exists b', In b' (bucket_add k it bs) /\ fst b' = fst b.
+Proof.
+  intros k it. induction bs as [|[k' e] r IH]; intros b Hb; [destruct Hb|]. cbn [bucket_add].
+  destruct (key_eqb k k').
+  - destruct Hb as [<-|Hb]; [exists (k', e ++ [it]); split; [now left | reflexivity] | exists b; split; [now right | reflexivity]].
+  - destruct Hb as [<-|Hb]; [exists (k', e); split; [now left | reflexivity]|].
+    destruct (IH b Hb) as [b' [H1 H2]]. exists b'. split; [now right | exact H2].
+Qed.
+
+Lemma buckets_keeps_key : forall l bs bs' b, buckets l bs = Some bs' -> In b bs -> exists b', In b' bs' /\ fst b' = fst b.
+Proof.
+  induction l as [|it r IH]; intros bs bs' b H Hb; cbn [buckets] in H.
+  - injection H as <-. exists b. split; [exact Hb | reflexivity].
+  - destruct (key_of it) eqn:E; try discriminate;
+      (destruct (bucket_add_keeps_key (key_of it) it bs b Hb) as [b1 [H1 E1]]; rewrite E in H1;
+       destruct (IH _ _ b1 H H1) as [b2 [H2 E2]]; exists b2; split; [exact H2 | congruence]).
+Qed.
+
+Lemma buckets_has_key : forall l bs bs' it, buckets l bs = Some bs' -> In it l -> exists b, In b bs' /\ fst b = key_of it.
+Proof.
+  induction l as [|x r IH]; intros bs bs' it H Hin; [destruct Hin|]. cbn [buckets] in H.
+  destruct Hin as [->|Hin].
+  - destruct (key_of it) eqn:E; try discriminate;
+      (destruct (bucket_add_has_key (key_of it) it bs) as [b1 [H1 E1]]; rewrite E in H1;
+       destruct (buckets_keeps_key r _ bs' b1 H H1) as [b2 [H2 E2]]; exists b2; split; [exact H2 | congruence]).
+  - destruct (key_of x); try discriminate; now apply (IH _ _ it H Hin).
+Qed.
+
+Definition bad_key (k : key) : bool := match k with KeyOf w => negb (five w) | _ => true end.
+
+Lemma route_bad : forall bs d b, In b bs -> bad_key (fst b) = true -> snd (route d bs) <> None.
+Proof.
+  induction bs as [|[k e] r IH]; intros d b Hb Hk; [destruct Hb|]. cbn [route].
+  destruct k as [w| |]; try (cbn; discriminate).
+  destruct (writer_extend w d e) as [d' [x|]] eqn:E; [cbn; discriminate|].
+  destruct Hb as [<-|Hb]; [|now apply (IH d' b)].
+  cbn [fst bad_key] in Hk. apply negb_true_iff in Hk. destruct w; try discriminate; cbn in E; discriminate.
+Qed.
+
+(* an entry whose type (or the type of whose first element) is none of the five - or a nested / empty list - makes
+   Device.extend raise, wherever it stands in the list *)
+Theorem extend_foreign_anywhere : forall d l it, In it l -> bad_key (key_of it) = true -> snd (dev_extend d (Grp l)) <> None.
+Proof.
+  intros d l it Hin Hk. unfold dev_extend, parse_objects. destruct (buckets l []) as [bs|] eqn:E; [|cbn; discriminate].
+  destruct (buckets_has_key l [] bs it E Hin) as [b [Hb Eb]]. apply (route_bad bs d b Hb). now rewrite Eb.
+Qed.
